@@ -8,50 +8,20 @@
 (* Each loop iteration is one action so that TLC also checks termination   *)
 (* (the proposal's start strictly increases) and the completeness claim.   *)
 (***************************************************************************)
-EXTENDS Allocate
+EXTENDS AllocateScan
 
-CONSTANTS Cap, MaxRes, MaxReq, MaxSize, Aligns
+CONSTANTS MaxRes, MaxReq, MaxSize, Aligns
 
 Ranges == { r \in (0..Cap) \X (0..Cap) : r[1] < r[2] }
 SeqsUpTo(S, n) == UNION { [1..k -> S] : k \in 0..n }
-
-VARIABLES res,      \* sequence of reserved ranges (list order matters to the algorithm)
-          reqs,     \* sequence of request sizes
-          al,       \* alignment
-          ptr, idx, given, phase, laststart
-
-vars == <<res, reqs, al, ptr, idx, given, phase, laststart>>
 
 DInit == /\ res \in SeqsUpTo(Ranges, MaxRes)
          /\ reqs \in SeqsUpTo(0..MaxSize, MaxReq)
          /\ al \in Aligns
          /\ ptr = 0 /\ idx = 1 /\ given = <<>> /\ phase = "scan" /\ laststart = -1
 
-Proposal == LET s == AlignUp(ptr, al) IN <<s, s + reqs[idx]>>
-Overlapping == { i \in 1..Len(res) : Overlap(Proposal, res[i]) }
-MaxOfSet(S) == CHOOSE m \in S : \A n \in S : n <= m
-
-\* one iteration of the while loop
-Fail == /\ phase = "scan" /\ idx <= Len(reqs) /\ Proposal[2] > Cap
-        /\ phase' = "failed" /\ UNCHANGED <<res, reqs, al, ptr, idx, given, laststart>>
-Skip == /\ phase = "scan" /\ idx <= Len(reqs) /\ Proposal[2] <= Cap /\ Overlapping # {}
-        /\ ptr' = res[MaxOfSet(Overlapping)][2]          \* the last overlapping one in list order wins
-        /\ laststart' = Proposal[1]
-        /\ UNCHANGED <<res, reqs, al, idx, given, phase>>
-Grant == /\ phase = "scan" /\ idx <= Len(reqs) /\ Proposal[2] <= Cap /\ Overlapping = {}
-         /\ given' = Append(given, Proposal) /\ ptr' = Proposal[2] /\ idx' = idx + 1
-         /\ laststart' = -1
-         /\ UNCHANGED <<res, reqs, al, phase>>
-Done == /\ phase = "scan" /\ idx > Len(reqs) /\ phase' = "done"
-        /\ UNCHANGED <<res, reqs, al, ptr, idx, given, laststart>>
-DNext == Fail \/ Skip \/ Grant \/ Done
 DSpec == DInit /\ [][DNext]_vars /\ WF_vars(DNext)
 
-ResSet == { res[i] : i \in 1..Len(res) }
-Sound == \A i \in 1..Len(given) :
-            /\ RLen(given[i]) = reqs[i] /\ Within(given[i], Cap) /\ AlignedTo(given[i], al)
-            /\ \A r \in ResSet : ~Overlap(given[i], r)
-            /\ \A j \in 1..Len(given) : i # j => ~Overlap(given[i], given[j])
 \* the start of successive proposals for one request strictly increases: the loop terminates
 Progress == [][Skip => AlignUp(ptr', al) > AlignUp(ptr, al)]_vars
 Terminates == <>(phase \in {"done", "failed"})
